@@ -1,25 +1,33 @@
 /-
-C04 — property theorems. Model: `HydroVerif/Model/C04.lean`; helper lemmas: `Lemmas/C04.lean`, `Lemmas/C04Conf.lean`.
-`o` = (transformed) observations, `s` = (transformed) simulations. The composition with the transform is made by the
-code (`trans.forward`, whose own properties are C01/C02) and checked by the correspondence; every theorem below is stated
-for arbitrary series, hence for the image of the series under ANY transform.
+C04 — property theorems. Model: `HydroVerif/Model/C04.lean`; helper lemmas: `Lemmas/C04.lean`, `Lemmas/C04Conf.lean`,
+`Lemmas/C04Full.lean` (null filter = removal, histories, error paths), `Lemmas/C04Rnd.lean` (rounded carrier).
+`o` = (transformed) observations, `s` = (transformed) simulations. The whole functions (`biasFull`, `nseFull`, `kgeFull`,
+`corrRaw`, `binaryOf`, `binarySeries`) take the RAW arguments and the transform as a function `f` (`trans.forward` on one value);
+the driver runs them with the transform model of C01/C02 as `f`, so the composition with the transform, the argument checks,
+the null filter, the guards and the error kinds are inside the model. Every theorem is stated for an arbitrary `f`, hence
+for Identity, Log, BoxCox2, Reciprocal, Sinh at any parameters.
 
 Clause of the property                                   | theorems                                                       | outside the theorems
 ---------------------------------------------------------|----------------------------------------------------------------|---------------------
-scores equal their textbook definitions                  | nse (definition), biasStd_value, biasNorm_value, kge_value, pearson_textbook (clipping of corrcoef never acts: cauchy_schwarz), pearson_comm, ranks / corrSpearman (definition) | IEEE rounding; numpy pairwise sums (condition-scaled tolerance)
-perfect simulation: bias 0, NSE 1, KGE 1, corr 1          | biasStd_perfect, biasNorm_perfect, biasLog_perfect, nse_perfect, nse_perfect_trans, kge_perfect, pearson_self, corr_perfect, spearman_perfect, corrFull_perfect | -
+scores equal their textbook definitions on the transformed series | nse (definition), nseFull_complete, biasStd_value, biasNorm_value, kge_value, kge_textbook + corrPearson_textbook (non-degeneracy discharged from the guards: ssd_pos_of_std_guard), pearson_textbook (clipping of corrcoef never acts: cauchy_schwarz), pearson_comm, ranks / corrSpearman (definition) | numpy pairwise sums vs sequential sums (condition-scaled tolerance); exp/log/pow/asinh of the transforms (C01/C02)
+perfect simulation: bias 0, NSE 1, KGE 1, corr 1          | biasStd_perfect, biasNorm_perfect, biasLog_perfect, nse_perfect, nse_perfect_trans, kge_perfect, pearson_self, corr_perfect, spearman_perfect, corrFull_perfect, corrRaw_perfect; exactly so in floating point: nse_perfect_rnd, bias_perfect_rnd; strictness of the guard: kge_perfect_boundary | -
 simulating the observed mean scores NSE 0                | nse_mean_sim                                                   | -
-NSE and KGE never exceed 1                               | nse_le_one, kge_le_one (pearson_range)                         | -
+NSE and KGE never exceed 1                               | nse_le_one, kge_le_one (pearson_range); in floating point: nse_le_one_rnd, kge_le_one_rnd, pearson_range_rnd | -
 NSE invariant under a common affine map                  | nse_affine                                                     | -
-bias and KGE invariant under positive scaling            | biasStd_scale, biasNorm_scale, biasLog_scale, kge_scale (std_scale, pearson_scale) | -
-excludenull = score of the series with incomplete pairs removed | nonull_spec, nonull_complete, corrFull (model) + mem_checkEns | np.isfinite / pd.notnull (driver: Float.isFinite / isNaN)
+bias and KGE invariant under positive scaling            | biasStd_scale, biasNorm_scale, biasLog_scale, kge_scale (std_scale, pearson_scale); the guard hypothesis after scaling is needed: biasStd_scale_needs_guard | -
+excludenull = score of the series with incomplete pairs removed | biasFull_excl, nseFull_excl, kgeFull_excl, corrSeries_excl (prep_excl_eq_removed), full_excl_noValid, nonull_spec, nonull_complete, mem_checkEns | np.isfinite / pd.notnull / np.isnan (driver: Float.isFinite / isNaN)
+argument checks and error kinds                           | full_shape_error, corrRaw_shape_error, corrRaw_censored, corrRaw_orient, orient_idem, orient_square, orient_of_length_ne_one | the wording of the messages
 ensemble statistic mean / median                         | ensStat_single, ensStat_skips_nan, ensStat_all_nan, ensMean_value, median_perm, median_bounds, sortL_perm, sortL_sorted | np.nanmean / np.nanmedian (compared per row)
 Spearman depends on the data through their order only    | ranks_map_strictMono, spearman_monotone_invariant              | scipy.stats.spearmanr (compared by result)
-confusion matrix: every pair once, requested size        | confusion_labels, confusion_cells, confusion_total, inferNcat_covers | pandas.crosstab (compared by result)
-binary scores equal contingency-table definitions        | binary_rates, binary_f1_harmonic, binary_theta, binary_orss, binary_lor_defined, binary_accuracy_range, binary_mcc_range | sqrt / log of the driver's Float
+confusion matrix: every pair once, requested size        | confusion_labels, confusion_cells, confusion_total, inferNcat_covers; labels ≥ ncat are dropped: confusion_total_needs_range; a returned table is a value whatever is computed or edited afterwards: held_table_is_value, hstep_edit_out_of_range, hrun_length (over arbitrary operation lists) | pandas.crosstab (compared by result)
+binary scores equal contingency-table definitions        | binary_rates, binary_f1_harmonic, binary_theta, binary_orss, binary_lor_defined, binary_accuracy_range, binary_mcc_range; never rejected on positive tables / rejected exactly when FN = 0 or FP = 0: binaryOf_pos, binaryOf_zeroDiv_iff; from two 0/1 series: binarySeries_eq; in floating point: binary_rates_range_rnd, binary_orss_range_rnd | sqrt / log of the driver's Float
+biasNorm in [-1, 1]                                       | biasNorm_range, biasNorm_range_rnd                             | -
+signs (which way a score points)                         | binary_skill_sign, biasStd_sign, biasStd_sign_rnd              | -
 -/
 import HydroVerif.Lemmas.C04
 import HydroVerif.Lemmas.C04Conf
+import HydroVerif.Lemmas.C04Full
+import HydroVerif.Lemmas.C04Rnd
 import Mathlib.Analysis.SpecialFunctions.Pow.Real
 import Mathlib.Analysis.SpecialFunctions.Log.Basic
 
@@ -485,21 +493,21 @@ theorem allSomeL_map_some {α : Type} (l : List α) : allSomeL (l.map some) = so
 
 /-- `corr` of a perfect one-member "ensemble" is 1 for every transform, both statistics, with or without the
 null filter (complete data), Pearson type -/
-theorem corrFull_perfect (fin : ℝ → Bool) (hfin : ∀ x, fin x = true) (eps : ℝ) (st : Stat) (excl : Bool)
+theorem corrFull_perfect (fin nanv : ℝ → Bool) (hfin : ∀ x, fin x = true) (hnan : ∀ x, nanv x = false) (eps : ℝ) (st : Stat) (excl : Bool)
     (o : List ℝ) (hs : ¬ |std o| < eps) (hp : 0 < ssd (mean o) o) :
-    corrFull fin eps false st excl (o.map some) (o.map fun x => [some x]) = .value 1 := by
+    corrFull fin nanv eps false st excl (o.map some) (o.map fun x => [some x]) = .value 1 := by
   have hne : o ≠ [] := by rintro rfl; simp [ssd, sumL] at hp
-  have hsim : (o.map fun x => [some x]).map (ensStat st) = o.map some := by
-    simp [List.map_map, Function.comp_def, ensStat_single]
-  unfold corrFull
+  have hsim : ((o.map fun x => [some x]).map fun row => nanOpt nanv (ensStat st row)) = o.map some := by
+    simp [List.map_map, Function.comp_def, ensStat_single, nanOpt, hnan]
+  unfold corrFull corrSeries
   simp only [hsim]
   cases excl with
   | false =>
-    simp [allSomeL_map_some, corr_perfect eps o hs hp]
+    simp [prep, allSomeL_map_some, corr_perfect eps o hs hp]
   | true =>
-    have hfo : (o.map some).map (fun x : Option ℝ => x.bind fun v => if fin v then some v else none) = o.map some := by
-      simp [List.map_map, Function.comp_def, hfin]
-    simp only [hfo, if_true]
+    have hfo : (o.map some).map (finOpt fin) = o.map some := by
+      simp [List.map_map, Function.comp_def, finOpt, hfin]
+    simp only [prep, hfo, if_true]
     rw [nonull_complete o o rfl]
     simp [hne, corr_perfect eps o hs hp]
 
@@ -676,6 +684,499 @@ theorem binary_mcc_range (h1 : 0 ≤ tn) (h2 : 0 ≤ fp) (h3 : 0 ≤ fn) (h4 : 0
 
 end binaryScores
 
+/-! ### the whole functions: `excludenull`, argument checks, orientation -/
+
+section whole
+
+/-- `bias(..., excludenull=True)` is `bias(..., excludenull=False)` of the series with the incomplete pairs removed
+(for every transform `f`, every type, valid or not) -/
+theorem biasFull_excl (fin : ℝ → Bool) (eps : ℝ) (f : ℝ → Option ℝ) (ty : Option BiasType) (obs sim : List (Option ℝ))
+    (hl : obs.length = sim.length) (hne : (removedRaw fin f obs sim).1 ≠ []) :
+    biasFull fin eps f ty true obs sim
+      = biasFull fin eps f ty false (removedRaw fin f obs sim).1 (removedRaw fin f obs sim).2 := by
+  unfold biasFull
+  rw [prep_excl_eq_removed fin f obs sim hne]
+  simp [hl, removedRaw_length fin f obs sim]
+
+theorem nseFull_excl (fin : ℝ → Bool) (f : ℝ → Option ℝ) (obs sim : List (Option ℝ))
+    (hl : obs.length = sim.length) (hne : (removedRaw fin f obs sim).1 ≠ []) :
+    nseFull fin f true obs sim = nseFull fin f false (removedRaw fin f obs sim).1 (removedRaw fin f obs sim).2 := by
+  unfold nseFull
+  rw [prep_excl_eq_removed fin f obs sim hne]
+  simp [hl, removedRaw_length fin f obs sim]
+
+theorem kgeFull_excl (fin : ℝ → Bool) (eps : ℝ) (f : ℝ → Option ℝ) (obs sim : List (Option ℝ))
+    (hl : obs.length = sim.length) (hne : (removedRaw fin f obs sim).1 ≠ []) :
+    kgeFull fin eps f true obs sim = kgeFull fin eps f false (removedRaw fin f obs sim).1 (removedRaw fin f obs sim).2 := by
+  unfold kgeFull
+  rw [prep_excl_eq_removed fin f obs sim hne]
+  simp [hl, removedRaw_length fin f obs sim]
+
+/-- the same for `corr`, on the transformed observations and the per-forecast statistic -/
+theorem corrSeries_excl (fin : ℝ → Bool) (eps : ℝ) (sp : Bool) (tobs tsim : List (Option ℝ))
+    (hne : (removedRaw fin some tobs tsim).1 ≠ []) :
+    corrSeries fin eps sp true tobs tsim
+      = corrSeries fin eps sp false (removedRaw fin some tobs tsim).1 (removedRaw fin some tobs tsim).2 := by
+  have := prep_excl_eq_removed fin some tobs tsim hne
+  simp only [fwdL_some] at this
+  unfold corrSeries
+  rw [this]
+
+/-- with `excludenull` and no complete pair every score raises "No valid data" -/
+theorem full_excl_noValid (fin : ℝ → Bool) (eps : ℝ) (f : ℝ → Option ℝ) (ty : Option BiasType) (obs sim : List (Option ℝ))
+    (hl : obs.length = sim.length) (hne : (removedRaw fin f obs sim).1 = []) :
+    biasFull fin eps f ty true obs sim = .errNoValid ∧ nseFull fin f true obs sim = .errNoValid ∧
+    kgeFull fin eps f true obs sim = .errNoValid := by
+  simp [biasFull, nseFull, kgeFull, hl, prep_excl_noValid fin f obs sim hne]
+
+/-- series of different lengths are always rejected, whatever the other arguments -/
+theorem full_shape_error (fin : ℝ → Bool) (eps : ℝ) (f : ℝ → Option ℝ) (ty : Option BiasType) (excl : Bool)
+    (obs sim : List (Option ℝ)) (hl : obs.length ≠ sim.length) :
+    biasFull fin eps f ty excl obs sim = .errShape ∧ nseFull fin f excl obs sim = .errShape ∧
+    kgeFull fin eps f excl obs sim = .errShape := by
+  simp [biasFull, nseFull, kgeFull, hl]
+
+/-- on complete data the whole function is the closed form of the transformed series: score(obs, sim, trans) is the score of
+trans.forward(obs), trans.forward(sim) -/
+theorem nseFull_complete (fin : ℝ → Bool) (hfin : ∀ x, fin x = true) (f : ℝ → ℝ) (excl : Bool) (obs sim : List ℝ)
+    (hl : obs.length = sim.length) (hne : obs ≠ []) :
+    nseFull fin (fun x => some (f x)) excl (obs.map some) (sim.map some) = .value (nse (obs.map f) (sim.map f)) := by
+  have e : ∀ l : List ℝ, fwdL (fun x => some (f x)) (l.map some) = (l.map f).map some := by
+    intro l; simp [fwdL, List.map_map, Function.comp_def]
+  have hfo : ∀ l : List ℝ, (l.map some).map (finOpt fin) = l.map some := by
+    intro l; simp [List.map_map, Function.comp_def, finOpt, hfin]
+  unfold nseFull
+  simp only [e, List.length_map, hl, ne_eq, not_true_eq_false, if_false]
+  cases excl with
+  | false => simp only [prep, Bool.false_eq_true, if_false, allSomeL_map_some]
+  | true =>
+    simp only [prep, hfo, if_true]
+    rw [nonull_complete _ _ (by simp [hl])]
+    simp [hne]
+
+end whole
+
+/-! ### orientation of the ensemble -/
+
+theorem orient_of_length_ne_one {α : Type} (ens : List (List (Option α))) (h : ens.length ≠ 1) : orient ens = ens := by
+  match ens, h with
+  | [], _ => rfl
+  | [_], h => simp at h
+  | _ :: _ :: _, _ => rfl
+
+theorem orient_single {α : Type} (row : List (Option α)) : orient [row] = row.map fun x => [x] := rfl
+
+/-- orienting twice changes nothing: a series given as `[n]`, as `[1,n]` or as `[n,1]` is the same ensemble -/
+theorem orient_idem {α : Type} (ens : List (List (Option α))) : orient (orient ens) = orient ens := by
+  match ens with
+  | [] => rfl
+  | [row] =>
+    match row with
+    | [] => rfl
+    | [x] => rfl
+    | _ :: _ :: _ => rfl
+  | _ :: _ :: _ => rfl
+
+/-- a square ensemble (as many members as forecasts, at least two) is taken as it is, never transposed -/
+theorem orient_square {α : Type} (ens : List (List (Option α))) (n : Nat) (hn : 2 ≤ n) (h : ens.length = n) :
+    orient ens = ens := orient_of_length_ne_one ens (by omega)
+
+/-! ### `corr` from its raw arguments -/
+
+/-- the orientation step is applied once: `corr(obs, series)`, `corr(obs, series[None, :])` and `corr(obs, series[:, None])`
+are the same call -/
+theorem corrRaw_orient (fin nanv : ℝ → Bool) (eps : ℝ) (f : ℝ → Option ℝ) (ct : Option CorrType) (st : Option Stat) (excl : Bool)
+    (obs : List (Option ℝ)) (ens : List (List (Option ℝ))) :
+    corrRaw fin nanv eps f ct st excl obs (orient ens) = corrRaw fin nanv eps f ct st excl obs ens := by
+  unfold corrRaw
+  rw [orient_idem]
+
+/-- an ensemble that does not have one row per observation after orientation is rejected; in particular a `[p,n]` array
+with `p ≠ n`, `p ≠ 1` is never silently transposed -/
+theorem corrRaw_shape_error (fin nanv : ℝ → Bool) (eps : ℝ) (f : ℝ → Option ℝ) (ct : Option CorrType) (st : Option Stat)
+    (excl : Bool) (obs : List (Option ℝ)) (ens : List (List (Option ℝ))) (h1 : ens.length ≠ 1) (h : ens.length ≠ obs.length) :
+    corrRaw fin nanv eps f ct st excl obs ens = .errShape := by
+  unfold corrRaw
+  simp [orient_of_length_ne_one ens h1, h]
+
+/-- `type="censored"` passes the argument check and is computed exactly like `type="Spearman"` -/
+theorem corrRaw_censored (fin nanv : ℝ → Bool) (eps : ℝ) (f : ℝ → Option ℝ) (st : Option Stat) (excl : Bool)
+    (obs : List (Option ℝ)) (ens : List (List (Option ℝ))) :
+    corrRaw fin nanv eps f (some .censored) st excl obs ens = corrRaw fin nanv eps f (some .spearman) st excl obs ens := by
+  unfold corrRaw
+  rfl
+
+/-- `corr` of a perfect simulation given as a plain series is 1: for every transform `f`, both statistics, with or
+without `excludenull`, whenever the transformed observations pass the standard-deviation guard -/
+theorem corrRaw_perfect (fin nanv : ℝ → Bool) (hfin : ∀ x, fin x = true) (hnan : ∀ x, nanv x = false) (eps : ℝ) (f : ℝ → ℝ) (st : Stat) (excl : Bool)
+    (o : List ℝ) (hs : ¬ |std (o.map f)| < eps) (hp : 0 < ssd (mean (o.map f)) (o.map f)) :
+    corrRaw fin nanv eps (fun x => some (f x)) (some .pearson) (some st) excl (o.map some) [o.map some] = .value 1 := by
+  have hne : o ≠ [] := by rintro rfl; simp [ssd] at hp
+  unfold corrRaw
+  simp only [orient_single, List.map_map, List.length_map, ne_eq, not_true_eq_false, if_false]
+  have hk : checkEns (o.map some) (List.map ((fun x => [x]) ∘ some) o) = o.map fun x => (some x, [some x]) := by
+    have := checkEns_complete o
+    simpa [Function.comp_def] using this
+  rw [hk]
+  have h1 : fwdL (fun x => some (f x)) ((o.map fun x => (some x, [some x])).map fun p => p.1) = (o.map f).map some := by
+    simp [fwdL, List.map_map, Function.comp_def]
+  have h2 : ((o.map fun x => (some x, [some x])).map fun p => fwdL (fun x => some (f x)) p.2)
+      = (o.map f).map fun x => [some x] := by
+    simp [fwdL, List.map_map, Function.comp_def]
+  rw [h1, h2]
+  have hb : (CorrType.pearson != CorrType.pearson) = false := by decide
+  rw [hb, corrFull_perfect fin nanv hfin hnan eps st excl (o.map f) hs hp]
+  simp [hne]
+
+/-! ### `binary`: error paths and the route series → table → scores -/
+
+section binaryOf
+variable {α : Type} [Field α] [LinearOrder α] [IsStrictOrderedRing α]
+variable (tn fp fn tp : α)
+
+/-- a table with four positive counts is never rejected: `binary` returns its scores -/
+theorem binaryOf_pos (h1 : 0 < tn) (h2 : 0 < fp) (h3 : 0 < fn) (h4 : 0 < tp) :
+    binaryOf [[tn, fp], [fn, tp]] = .ok (binary tn fp fn tp) := by
+  have a : tp + fn ≠ 0 := by positivity
+  have b : tn + fp ≠ 0 := by positivity
+  have c : 1 - (binary tn fp fn tp).hitrate ≠ 0 := by
+    simp only [binary]
+    have : tp / (tp + fn) < 1 := by rw [div_lt_one (by positivity)]; linarith
+    linarith
+  have d : (binary tn fp fn tp).falsealarm ≠ 0 := by
+    simp only [binary]; positivity
+  have e : (binary tn fp fn tp).mccDen2 ≠ 0 := by
+    simp only [binary]; positivity
+  simp only [binaryOf, isZero_false_of_ne _ a, isZero_false_of_ne _ b, isZero_false_of_ne _ c,
+    isZero_false_of_ne _ d, isZero_false_of_ne _ e, Bool.false_eq_true, if_false]
+
+/-- among the tables of non-negative counts, `binary` raises ZeroDivisionError exactly when there is no miss or no
+false alarm (`FN = 0` or `FP = 0`); the test on the MCC denominator is never the first to fail -/
+theorem binaryOf_zeroDiv_iff (h1 : 0 ≤ tn) (h2 : 0 ≤ fp) (h3 : 0 ≤ fn) (h4 : 0 ≤ tp) :
+    binaryOf [[tn, fp], [fn, tp]] = .errZeroDiv ↔ fn = 0 ∨ fp = 0 := by
+  constructor
+  · intro h
+    by_contra hc
+    rw [not_or] at hc
+    have h3' : 0 < fn := lt_of_le_of_ne h3 (Ne.symm hc.1)
+    have h2' : 0 < fp := lt_of_le_of_ne h2 (Ne.symm hc.2)
+    have a : tp + fn ≠ 0 := by positivity
+    have b : tn + fp ≠ 0 := by positivity
+    have c : 1 - (binary tn fp fn tp).hitrate ≠ 0 := by
+      simp only [binary]
+      have : tp / (tp + fn) < 1 := by rw [div_lt_one (by positivity)]; linarith
+      linarith
+    have d : (binary tn fp fn tp).falsealarm ≠ 0 := by
+      simp only [binary]; positivity
+    have e : (binary tn fp fn tp).mccDen2 ≠ 0 := by
+      simp only [binary]; positivity
+    simp [binaryOf, isZero_false_of_ne _ a, isZero_false_of_ne _ b, isZero_false_of_ne _ c,
+      isZero_false_of_ne _ d, isZero_false_of_ne _ e] at h
+  · intro h
+    unfold binaryOf
+    simp only
+    split_ifs with g1 g2 g3 g4 g5 <;> try rfl
+    exfalso
+    rw [Bool.not_eq_true] at g1 g2 g3 g4
+    have a : tp + fn ≠ 0 := fun e => by simp [(isZero_iff _).mpr e] at g1
+    have b : tn + fp ≠ 0 := fun e => by simp [(isZero_iff _).mpr e] at g2
+    have c : 1 - (binary tn fp fn tp).hitrate ≠ 0 := fun e => by simp [(isZero_iff _).mpr e] at g3
+    have d : (binary tn fp fn tp).falsealarm ≠ 0 := fun e => by simp [(isZero_iff _).mpr e] at g4
+    rcases h with h | h
+    · subst h
+      apply c
+      simp only [binary, add_zero] at a ⊢
+      rw [div_self a, sub_self]
+    · subst h
+      apply d
+      simp [binary]
+
+end binaryOf
+
+/-- the scores of two 0/1 series are the scores of their four pair counts -/
+theorem binarySeries_eq {α : Type} [Field α] [LinearOrder α] [IsStrictOrderedRing α] (obs sim : List Int)
+    (ho : ∀ x ∈ obs, 0 ≤ x ∧ x < (2 : Nat)) (hs : ∀ x ∈ sim, 0 ≤ x ∧ x < (2 : Nat)) :
+    (binarySeries obs sim : BinRes α) =
+      binaryOf [[(count obs sim 0 0 : α), (count obs sim 0 1 : α)], [(count obs sim 1 0 : α), (count obs sim 1 1 : α)]] := by
+  unfold binarySeries
+  rw [confusion_cells, (confusion_labels obs sim 2 ho hs).1, (confusion_labels obs sim 2 ho hs).2]
+  rfl
+
+/-! ### histories: a table held by the caller is a value -/
+
+/-- whatever is computed or edited afterwards (`ops₂`, arbitrary, none of them writing to this table) and whatever
+happened before (`ops₁`, arbitrary), the table returned for `(obs, sim, ncat)` is the table of ITS pair counts -/
+theorem held_table_is_value (ops₁ ops₂ : List HOp) (obs sim : List Int) (ncat : Option Nat)
+    (h : ∀ op ∈ ops₂, op.target ≠ some (hrun ops₁).length) :
+    (hrun (ops₁ ++ HOp.score obs sim ncat :: ops₂))[(hrun ops₁).length]?
+      = some (confusion obs sim (match ncat with | some n => n | none => inferNcat obs sim)) := by
+  rw [hrun_append, List.foldl_cons]
+  rw [foldl_hstep_other ops₂ _ _ (by simp [hstep]) h]
+  cases ncat <;> simp [hstep]
+
+/-- an edit addressed to a table that is not held (index out of range) is rejected without any effect -/
+theorem hstep_edit_out_of_range (held : List Table) (k i j v : Nat) (hk : held.length ≤ k) :
+    hstep held (.setCell k i j v) = held ∧ hstep held (.fill k v) = held := by
+  have : ∀ (g : Table → Table), modifyAt held k g = held := by
+    intro g
+    induction held generalizing k with
+    | nil => rfl
+    | cons x xs ih =>
+      cases k with
+      | zero => simp at hk
+      | succ k => simp [modifyAt, ih k (by simpa using hk)]
+  exact ⟨this _, this _⟩
+
+/-- the number of held tables is the number of `score` operations: no operation drops or duplicates a result -/
+theorem hrun_length (ops : List HOp) : (hrun ops).length = (ops.filter fun op => op.target.isNone).length := by
+  suffices h : ∀ held : List Table, (ops.foldl hstep held).length
+      = held.length + (ops.filter fun op => op.target.isNone).length by simpa [hrun] using h []
+  induction ops with
+  | nil => simp
+  | cons op ops ih =>
+    intro held
+    rw [List.foldl_cons, ih]
+    cases op <;> simp [hstep, HOp.target, modifyAt_length]
+    omega
+
+/-! ### hypotheses: discharged from the guards of the code, or shown to be needed -/
+
+/-- the standard-deviation guard of `kge` / `corr` implies what the correlation theorems assume: non-constant data -/
+theorem ssd_pos_of_std_guard (eps : ℝ) (he : 0 < eps) (o : List ℝ) (h : ¬ |std o| < eps) : 0 < ssd (mean o) o := by
+  have hstd_nonneg : 0 ≤ std o := by unfold std; rw [sqrt_def]; exact Real.sqrt_nonneg _
+  rw [abs_of_nonneg hstd_nonneg, not_lt] at h
+  have hpos : 0 < std o := lt_of_lt_of_le he h
+  have hne : o ≠ [] := by rintro rfl; simp [std, ssd, sqrt_def] at hpos
+  exact (std_pos_iff o hne).mp hpos
+
+/-- whenever `kge` returns a number, the correlation inside it is the textbook coefficient and the number is the
+textbook KGE: the non-degeneracy assumptions of `pearson_textbook` follow from the three guards -/
+theorem kge_textbook (eps : ℝ) (he : 0 < eps) (o s : List ℝ) (hl : o.length = s.length) (v : ℝ) (h : kge eps o s = some v) :
+    pearson o s = scd (mean o) (mean s) o s / (Real.sqrt (ssd (mean o) o) * Real.sqrt (ssd (mean s) s)) ∧
+    v = 1 - Real.sqrt ((1 - mean s / mean o) ^ 2 + (1 - std s / std o) ^ 2 + (1 - pearson o s) ^ 2) := by
+  unfold kge at h
+  simp only [absG_eq_abs] at h
+  split at h
+  · cases h
+  · rename_i hm
+    split at h
+    · cases h
+    · rename_i hso
+      split at h
+      · rename_i hss
+        have hx := ssd_pos_of_std_guard eps he o hso
+        have hy := ssd_pos_of_std_guard eps he s (not_lt.mpr hss.le)
+        refine ⟨pearson_textbook o s hl hx hy, ?_⟩
+        injection h with h
+        rw [← h, sqrt_def]
+        ring_nf
+      · cases h
+
+/-- `corr(type="Pearson")` returns the textbook coefficient whenever it returns a number and the simulation is not constant -/
+theorem corrPearson_textbook (eps : ℝ) (he : 0 < eps) (o s : List ℝ) (hl : o.length = s.length)
+    (hy : 0 < ssd (mean s) s) (v : ℝ) (h : corrPearson eps o s = some v) :
+    v = scd (mean o) (mean s) o s / (Real.sqrt (ssd (mean o) o) * Real.sqrt (ssd (mean s) s)) := by
+  unfold corrPearson at h
+  simp only [absG_eq_abs] at h
+  split at h
+  · cases h
+  · rename_i hso
+    injection h with h
+    rw [← h]
+    exact pearson_textbook o s hl (ssd_pos_of_std_guard eps he o hso) hy
+
+/-- the guards compare with an ABSOLUTE threshold, so "invariant under a common positive scaling" needs the guard to pass
+after scaling as well (`biasStd_scale`, `kge_scale`): with `eps = 1`, halving the series `obs = [1]`, `sim = [2]` turns a
+bias of 1 into NaN -/
+theorem biasStd_scale_needs_guard :
+    ∃ (eps c : ℚ) (o s : List ℚ), 0 < c ∧ ¬ |mean o| < eps ∧
+      biasStd eps (o.map fun x => c * x) (s.map fun x => c * x) ≠ biasStd eps o s :=
+  ⟨1, 1/2, [1], [2], by norm_num, by norm_num [mean, sumL], by decide +kernel⟩
+
+/-- `kge_perfect` needs `eps < |std o|` strictly: at `std o = eps` the first guard passes, the last one does not, and a
+perfect simulation scores NaN -/
+theorem kge_perfect_boundary :
+    ∃ (eps : ℝ) (o : List ℝ), 0 < eps ∧ ¬ |mean o| < eps ∧ ¬ |std o| < eps ∧ kge eps o o = none := by
+  have hm : mean ([0, 2] : List ℝ) = 1 := by norm_num [mean, sumL]
+  have hs : std ([0, 2] : List ℝ) = 1 := by
+    unfold std
+    rw [hm, sqrt_def]
+    norm_num [ssd, sumL]
+  refine ⟨1, [0, 2], one_pos, by rw [hm]; norm_num, by rw [hs]; norm_num, ?_⟩
+  unfold kge
+  simp only [absG_eq_abs, hm, hs]
+  norm_num
+
+/-- `confusion_total` needs every label below `ncat`: with a given `ncat` that is too small the pairs holding a larger
+label are dropped -/
+theorem confusion_total_needs_range :
+    ∃ (obs sim : List Int) (ncat : Nat), obs.length = sim.length ∧ tableTotal (confusion obs sim ncat).2.2 ≠ obs.length :=
+  ⟨[0, 2], [0, 0], 2, by decide, by decide⟩
+
+/-! ### what survives rounding: the same model text evaluated with a rounding after every operation (`Rnd α r`)
+
+`r` is any monotone, odd operator with `r 0 = 0`, `r 1 = 1` (`IsRounding`): IEEE round-to-nearest-even, round-toward-zero,
+round-up/down pairs … in any precision, as long as nothing overflows.  These statements are therefore true of the float64
+results themselves, not only of their real-number idealisation. -/
+
+section rounded
+set_option linter.unusedSectionVars false
+variable {α : Type} [Field α] [LinearOrder α] [IsStrictOrderedRing α] {r : α → α}
+
+/-- NSE never exceeds 1, in floating point too -/
+theorem nse_le_one_rnd (hr : IsRounding r) (o s : List (Rnd α r)) (h : 0 < (ssd (mean o) o).val) :
+    (nse o s).val ≤ 1 := by
+  unfold nse
+  simp only [Rnd.sub_val, Rnd.div_val, Rnd.one_val]
+  apply hr.le_one
+  have : 0 ≤ r ((sse o s).val / (ssd (mean o) o).val) := hr.nonneg (div_nonneg (sse_val_nonneg hr o s) h.le)
+  linarith
+
+/-- a perfect simulation scores NSE exactly 1 in floating point: every error is exactly 0 -/
+theorem nse_perfect_rnd (hr : IsRounding r) (o : List (Rnd α r)) (_h : (ssd (mean o) o).val ≠ 0) :
+    (nse o o).val = 1 := by
+  unfold nse
+  simp [sse_self_val hr o, hr.zero, hr.one]
+
+/-- a perfect simulation has bias exactly 0 in floating point (standard and normalised bias) -/
+theorem bias_perfect_rnd (hr : IsRounding r) (eps : Rnd α r) (o : List (Rnd α r)) (h : ¬ absG (mean o) < eps) :
+    (biasStd eps o o).map (·.val) = some 0 ∧ (biasNorm eps o o).map (·.val) = some 0 := by
+  simp [biasStd, biasNorm, h, hr.zero]
+
+/-- the normalised bias of series with non-negative means lies in [-1, 1] in floating point -/
+theorem biasNorm_range_rnd (hr : IsRounding r) (eps : Rnd α r) (o s : List (Rnd α r)) (v : Rnd α r)
+    (ho : 0 ≤ (mean o).val) (hs : 0 ≤ (mean s).val) (hd : 0 < (mean s + mean o).val)
+    (h : biasNorm eps o s = some v) : -1 ≤ v.val ∧ v.val ≤ 1 := by
+  unfold biasNorm at h
+  simp only at h
+  split at h
+  · cases h
+  · injection h with h
+    subst h
+    simp only [Rnd.div_val, Rnd.sub_val, Rnd.add_val] at hd ⊢
+    exact hr.quot_range hd (by linarith) (by linarith)
+
+variable (tn fp fn tp : Rnd α r)
+
+/-- hit rate, false-alarm rate, precision and accuracy are proportions in floating point too (counts are exactly
+representable: `r c = c`) -/
+theorem binary_rates_range_rnd (hr : IsRounding r)
+    (h1 : 0 ≤ tn.val) (h2 : 0 ≤ fp.val) (h3 : 0 ≤ fn.val) (h4 : 0 ≤ tp.val)
+    (e2 : r fp.val = fp.val) (e4 : r tp.val = tp.val) :
+    (0 ≤ (binary tn fp fn tp).hitrate.val ∧ (binary tn fp fn tp).hitrate.val ≤ 1) ∧
+    (0 ≤ (binary tn fp fn tp).falsealarm.val ∧ (binary tn fp fn tp).falsealarm.val ≤ 1) ∧
+    (0 ≤ (binary tn fp fn tp).precision.val ∧ (binary tn fp fn tp).precision.val ≤ 1) := by
+  have key : ∀ a b : α, 0 ≤ a → 0 ≤ b → r a = a → (0 ≤ r (a / r (a + b)) ∧ r (a / r (a + b)) ≤ 1) := by
+    intro a b ha hb ea
+    have hd : a ≤ r (a + b) := by
+      have := hr.mono (show a ≤ a + b by linarith); rwa [ea] at this
+    have hd0 : 0 ≤ r (a + b) := le_trans ha hd
+    exact ⟨hr.nonneg (div_nonneg ha hd0), hr.le_one (div_le_one_of_le₀ hd hd0)⟩
+  simp only [binary, Rnd.div_val, Rnd.add_val]
+  refine ⟨key _ _ h4 h3 e4, ?_, key _ _ h4 h2 e4⟩
+  have := key fp.val tn.val h2 h1 e2
+  rwa [add_comm] at this
+
+/-- the odds-ratio skill score is defined and lies in [-1, 1] in floating point, for every table of non-negative counts -/
+theorem binary_orss_range_rnd (hr : IsRounding r)
+    (h1 : 0 ≤ tn.val) (h2 : 0 ≤ fp.val) (h3 : 0 ≤ fn.val) (h4 : 0 ≤ tp.val)
+    (e2 : r fp.val = fp.val) (e4 : r tp.val = tp.val) :
+    ∃ v, (binary tn fp fn tp).orss = some v ∧ -1 ≤ v.val ∧ v.val ≤ 1 := by
+  obtain ⟨⟨hh0, hh1⟩, ⟨hf0, hf1⟩, _⟩ := binary_rates_range_rnd tn fp fn tp hr h1 h2 h3 h4 e2 e4
+  have ht : 0 ≤ (binary tn fp fn tp).theta.val := by
+    simp only [binary, Rnd.div_val, Rnd.mul_val, Rnd.sub_val, Rnd.add_val, Rnd.one_val] at hh0 hh1 hf0 hf1 ⊢
+    apply hr.nonneg
+    apply div_nonneg _ hf0
+    apply hr.nonneg
+    apply div_nonneg
+    · exact hr.nonneg (mul_nonneg hh0 (hr.nonneg (by linarith)))
+    · exact hr.nonneg (by linarith)
+  have e : (binary tn fp fn tp).orss = (if -1 < (binary tn fp fn tp).theta
+      then some (((binary tn fp fn tp).theta - 1) / ((binary tn fp fn tp).theta + 1)) else none) := rfl
+  rw [e]
+  exact orss_aux hr _ ht
+
+end rounded
+
+/-- KGE never exceeds 1 and the correlation stays within [-1, 1], in floating point too -/
+theorem kge_le_one_rnd {r : ℝ → ℝ} (hr : IsRounding r) (eps : Rnd ℝ r) (o s : List (Rnd ℝ r)) (v : Rnd ℝ r)
+    (h : kge eps o s = some v) : v.val ≤ 1 := by
+  unfold kge at h
+  simp only at h
+  split at h
+  · cases h
+  · split at h
+    · cases h
+    · split at h
+      · injection h with h
+        rw [← h]
+        show r (1 - r (Real.sqrt _)) ≤ 1
+        apply hr.le_one
+        have := hr.nonneg (Real.sqrt_nonneg
+          (((1 : Rnd ℝ r) - mean s / mean o) * (1 - mean s / mean o) + (1 - std s / std o) * (1 - std s / std o)
+            + (1 - pearson o s) * (1 - pearson o s)).val)
+        linarith
+      · cases h
+
+theorem pearson_range_rnd {r : ℝ → ℝ} (x y : List (Rnd ℝ r)) : -1 ≤ (pearson x y).val ∧ (pearson x y).val ≤ 1 := by
+  unfold pearson clip1
+  simp only
+  split
+  · simp
+  · split
+    · simp
+    · rename_i h1 h2
+      rw [Rnd.lt_iff] at h1 h2
+      simp only [Rnd.neg_val, Rnd.one_val] at h1 h2
+      exact ⟨not_lt.mp h1, not_lt.mp h2⟩
+
+/-! ### signs: which way a score points is decided by an exact comparison -/
+
+section signs
+set_option linter.unusedSectionVars false
+variable {α : Type} [Field α] [LinearOrder α] [IsStrictOrderedRing α]
+
+/-- ORSS, the odds ratio against 1 and the numerator of MCC all have the sign of `TP·TN − FP·FN` -/
+theorem binary_skill_sign (tn fp fn tp : α) (h1 : 0 < tn) (h2 : 0 < fp) (h3 : 0 < fn) (h4 : 0 < tp) :
+    ∃ v, (binary tn fp fn tp).orss = some v ∧
+      (0 < v ↔ fp * fn < tp * tn) ∧ (1 < (binary tn fp fn tp).theta ↔ fp * fn < tp * tn) ∧
+      (0 < (binary tn fp fn tp).mccNum ↔ fp * fn < tp * tn) := by
+  refine ⟨_, binary_orss tn fp fn tp h1 h2 h3 h4, ?_, ?_, ?_⟩
+  · have hd : 0 < tp * tn + fp * fn := by positivity
+    rw [div_pos_iff_of_pos_right hd]; exact sub_pos
+  · rw [binary_theta tn fp fn tp h1 h2 h3 h4, one_lt_div (by positivity)]
+  · simp only [binary]; exact sub_pos
+
+/-- the standard bias is positive exactly when the simulated mean exceeds a positive observed mean -/
+theorem biasStd_sign (eps : α) (o s : List α) (v : α) (hm : 0 < mean o) (h : biasStd eps o s = some v) :
+    (0 < v ↔ mean o < mean s) := by
+  unfold biasStd at h
+  simp only at h
+  split at h
+  · cases h
+  · injection h with h
+    rw [← h, div_pos_iff_of_pos_right hm]; exact sub_pos
+
+/-- ... and in floating point an over-estimating simulation never gets a negative bias, an under-estimating one never a
+positive bias -/
+theorem biasStd_sign_rnd {r : α → α} (hr : IsRounding r) (eps : Rnd α r) (o s : List (Rnd α r)) (v : Rnd α r)
+    (hm : 0 < (mean o).val) (h : biasStd eps o s = some v) :
+    ((mean o).val ≤ (mean s).val → 0 ≤ v.val) ∧ ((mean s).val ≤ (mean o).val → v.val ≤ 0) := by
+  unfold biasStd at h
+  simp only at h
+  split at h
+  · cases h
+  · injection h with h
+    subst h
+    simp only [Rnd.div_val, Rnd.sub_val]
+    constructor
+    · intro hle
+      exact hr.nonneg (div_nonneg (hr.nonneg (by linarith)) hm.le)
+    · intro hle
+      exact hr.nonpos (div_nonpos_of_nonpos_of_nonneg (hr.nonpos (by linarith)) hm.le)
+
+end signs
+
 /-! ### non-vacuity / sample evaluations -/
 
 example : nse [(1:ℚ), 2, 4, 7] [1, 2, 4, 5] = 17/21 := by decide +kernel
@@ -685,5 +1186,27 @@ example : (confusion [0, 2, 2, 0] [0, 0, 0, 0] (inferNcat [0, 2, 2, 0] [0, 0, 0,
 example : ranks [(3:ℚ), 1, 3, 2] = [7/2, 1, 7/2, 2] := by decide +kernel
 example : (binary (5:ℚ) 2 3 7).orss = some (29/41) := by decide +kernel
 example : (binary (2:ℚ) 5 7 3).orss = some (-29/41) := by decide +kernel
+
+example : removedRaw (fun _ : ℚ => true) some [some 1, none, some 3] [some 2, some 2, some 5]
+    = ([some 1, some 3], [some 2, some 5]) := by decide +kernel
+example : (removedRaw (fun _ : ℝ => true) some [some 1, none] [some 2, some 2]).1 ≠ [] := by
+  simp [removedRaw, completeB, finOpt]
+example : nseFull (fun _ : ℚ => true) some true [some 1, none, some 2, some 4, some 7] [some 1, some 9, some 2, some 4, some 5]
+    = .value (17/21) := by decide +kernel
+example : nseFull (fun _ : ℚ => true) some false [some 1, none, some 2] [some 1, some 9, some 2] = .nan := by decide +kernel
+example : nseFull (fun _ : ℚ => true) some true [none, some 2] [some 1, none] = .errNoValid := by decide +kernel
+example : (orient [[some (1:ℚ), some 2, some 3]]) = [[some 1], [some 2], [some 3]] := by decide +kernel
+example : (hrun [.score [0, 1] [1, 1] none, .score [0, 2] [0, 0] (some 3), .setCell 0 0 0 9, .fill 5 1])[1]?
+    = some (confusion [0, 2] [0, 0] 3) := by decide
+example : untouched [.score [0, 1] [1, 1] none, .score [0, 2] [0, 0] (some 3), .setCell 0 0 0 9, .fill 5 1] = [1] := by decide
+example : (match binaryOf [[(5:ℚ), 0], [3, 7]] with | .errZeroDiv => true | _ => false) = true := by decide +kernel
+example : (match binaryOf [[(5:ℚ), 2], [3, 7]] with | .ok b => decide (b.orss = some (29/41)) | _ => false) = true := by decide +kernel
+example : (match (binarySeries [0, 1, 1, 0, 1] [0, 1, 0, 1, 1] : BinRes ℚ) with | .ok b => decide (b.hitrate = 2/3) | _ => false) = true := by
+  decide +kernel
+example : IsRounding fixR ∧ fixR (7/2) = 3 ∧ fixR (-7/2) = -3 := ⟨fixR_isRounding, by decide +kernel, by decide +kernel⟩
+/-- the coarsest rounding (to integers): NSE of [1,2,4,5] against [1,2,4,7] is computed as 1 - fix(4/22) = 1, still ≤ 1 -/
+example : (nse ([⟨1⟩, ⟨2⟩, ⟨4⟩, ⟨7⟩] : List (Rnd ℚ fixR)) [⟨1⟩, ⟨2⟩, ⟨4⟩, ⟨5⟩]).val = 1 ∧
+    0 < (ssd (mean ([⟨1⟩, ⟨2⟩, ⟨4⟩, ⟨7⟩] : List (Rnd ℚ fixR))) [⟨1⟩, ⟨2⟩, ⟨4⟩, ⟨7⟩]).val := by decide +kernel
+example : ∃ v, (binary (2:ℚ) 5 7 3).orss = some v ∧ ¬ 0 < v := ⟨-29/41, by decide +kernel, by norm_num⟩
 
 end HydroVerif.C04
